@@ -1,6 +1,6 @@
 (* Dispatch.v — one entry point `run op arg` for every executable model and spec.
    Used identically by the extracted runner (coq/extract) and by `Eval vm_compute` re-evaluation. *)
-From Verif Require Import PyVal Rows Enc ComparableGen AsIndicesGen Order Sort SortSpec Dedup DedupSpec Basics SetOps SetSpec.
+From Verif Require Import PyVal Rows Enc ComparableGen AsIndicesGen Order Sort SortSpec Dedup DedupSpec Basics SetOps SetSpec Joins Relational HashJoins.
 Open Scope Z_scope.
 
 Definition run_cmp (arg : val) : val :=
@@ -162,6 +162,141 @@ Definition run_cut (arg : val) : val :=
   | _ => bad_input
   end.
 
+Definition dec_joinkind (n : list Z) : option joinkind :=
+  if zs_eqb n "join" then Some JInner else if zs_eqb n "leftjoin" then Some JLeft
+  else if zs_eqb n "rightjoin" then Some JRight else if zs_eqb n "outerjoin" then Some JOuter
+  else if zs_eqb n "lookupjoin" then Some JLookup else None.
+
+Definition hdr_of (t : table) : row := match t with h :: _ => h | [] => [] end.
+
+(* join: (kind, key|None, lkey|None, rkey|None, presorted, missing, lprefix|None, rprefix|None, bs|None, left, right) *)
+Definition run_join (arg : val) : val :=
+  match arg with
+  | VSeq _ [VStr kn; key; lkey; rkey; pre; missing; lp; rp; bs; l; r] =>
+      match dec_bool pre, dec_opt dec_nat bs, dec_table l, dec_table r with
+      | Some pre', Some bs', Some l', Some r' =>
+          match keys_from_args (hdr_of l') (hdr_of r') (dec_key key) (dec_key lkey) (dec_key rkey) with
+          | Err e => enc_exn e
+          | Ok (lk, rk) =>
+              if zs_eqb kn "antijoin" then enc_gen (antijoin_model lk rk pre' bs' l' r')
+              else match dec_joinkind kn with
+                   | Some k => enc_gen (join_model k lk rk pre' missing (dec_key lp) (dec_key rp) bs' l' r')
+                   | None => bad_input
+                   end
+          end
+      | _, _, _, _ => bad_input
+      end
+  | _ => bad_input
+  end.
+
+(* join_spec: (kind, key, lkey, rkey, missing, lprefix, rprefix, left, right, out) *)
+Definition run_join_spec (arg : val) : val :=
+  match arg with
+  | VSeq _ [VStr kn; key; lkey; rkey; missing; lp; rp; l; r; o] =>
+      match dec_table l, dec_table r, dec_table o with
+      | Some l', Some r', Some o' =>
+          match keys_from_args (hdr_of l') (hdr_of r') (dec_key key) (dec_key lkey) (dec_key rkey) with
+          | Err e => VNone
+          | Ok (lk, rk) =>
+              if zs_eqb kn "antijoin" then enc_optbool (antijoin_spec_holds lk rk l' r' o')
+              else match dec_joinkind kn with
+                   | Some k => enc_optbool (join_spec_holds k lk rk missing (dec_key lp) (dec_key rp) l' r' o')
+                   | None => bad_input
+                   end
+          end
+      | _, _, _ => bad_input
+      end
+  | _ => bad_input
+  end.
+
+(* crossjoin: (prefix, missing, (tables...)) ; crossjoin_spec: (missing, (tables...), out) *)
+Definition run_crossjoin (arg : val) : val :=
+  match arg with
+  | VSeq _ [prefix; missing; VSeq _ ts] =>
+      match dec_bool prefix, dec_all dec_table ts with
+      | Some p, Some ts' => enc_gen (crossjoin_model p missing ts')
+      | _, _ => bad_input
+      end
+  | _ => bad_input
+  end.
+Definition run_crossjoin_spec (arg : val) : val :=
+  match arg with
+  | VSeq _ [missing; VSeq _ ts; o] =>
+      match dec_all dec_table ts, dec_table o with
+      | Some ts', Some o' => enc_optbool (crossjoin_spec_holds missing ts' o')
+      | _, _ => bad_input
+      end
+  | _ => bad_input
+  end.
+
+(* hashjoin: (kind, key, lkey, rkey, missing, lprefix, rprefix, left, right) *)
+Definition run_hashjoin (arg : val) : val :=
+  match arg with
+  | VSeq _ [VStr kn; key; lkey; rkey; missing; lp; rp; l; r] =>
+      match dec_table l, dec_table r with
+      | Some l', Some r' =>
+          match keys_from_args (hdr_of l') (hdr_of r') (dec_key key) (dec_key lkey) (dec_key rkey) with
+          | Err e => enc_exn e
+          | Ok (lk, rk) =>
+              if zs_eqb kn "antijoin" then enc_gen (hashantijoin_model lk rk l' r')
+              else
+                let k := if zs_eqb kn "join" then Some HJoin else if zs_eqb kn "leftjoin" then Some HLeft
+                         else if zs_eqb kn "rightjoin" then Some HRight
+                         else if zs_eqb kn "lookupjoin" then Some HLookup else None in
+                match k with
+                | Some k' => enc_gen (hashjoin_model k' lk rk missing (dec_key lp) (dec_key rp) l' r')
+                | None => bad_input
+                end
+          end
+      | _, _ => bad_input
+      end
+  | _ => bad_input
+  end.
+
+(* hash_spec: (kind, key, lkey, rkey, missing, left, right, out) *)
+Definition run_hash_spec (arg : val) : val :=
+  match arg with
+  | VSeq _ [VStr kn; key; lkey; rkey; missing; l; r; o] =>
+      match dec_table l, dec_table r, dec_table o with
+      | Some l', Some r', Some o' =>
+          match keys_from_args (hdr_of l') (hdr_of r') (dec_key key) (dec_key lkey) (dec_key rkey) with
+          | Err e => VNone
+          | Ok (lk, rk) =>
+              if zs_eqb kn "antijoin" then enc_optbool (hashanti_spec_holds lk rk l' r' o')
+              else
+                let k := if zs_eqb kn "join" then 0%nat else if zs_eqb kn "leftjoin" then 1%nat
+                         else if zs_eqb kn "rightjoin" then 2%nat else 3%nat in
+                enc_optbool (hash_spec_holds k lk rk missing l' r' o')
+          end
+      | _, _, _ => bad_input
+      end
+  | _ => bad_input
+  end.
+
+Definition run_same_table (arg : val) : val :=
+  match arg with
+  | VSeq _ [a; b] => match dec_table a, dec_table b with
+                     | Some a', Some b' => enc_optbool (same_table a' b')
+                     | _, _ => bad_input
+                     end
+  | _ => bad_input
+  end.
+
+(* lookup: (one, strict, key, value|None, table) -> list of (key, value) pairs in insertion order *)
+Definition run_lookup (arg : val) : val :=
+  match arg with
+  | VSeq _ [one; strict; key; value; t] =>
+      match dec_bool one, dec_bool strict, dec_table t with
+      | Some one', Some st, Some t' =>
+          if one' then enc_res (fun d => vlist (map (fun kv => vtuple [fst kv; snd kv]) d))
+                               (lookupone_model st key (dec_key value) t')
+          else enc_res (fun d => vlist (map (fun kv => vtuple [fst kv; vlist (snd kv)]) d))
+                       (lookup_model key (dec_key value) t')
+      | _, _, _ => bad_input
+      end
+  | _ => bad_input
+  end.
+
 Definition run (op : list Z) (arg : val) : val :=
   if zs_eqb op "cmp" then run_cmp arg
   else if zs_eqb op "sort" then run_sort arg
@@ -176,4 +311,12 @@ Definition run (op : list Z) (arg : val) : val :=
   else if zs_eqb op "reassemble" then run_reassemble arg
   else if zs_eqb op "subseq" then run_subseq arg
   else if zs_eqb op "cut" then run_cut arg
+  else if zs_eqb op "join" then run_join arg
+  else if zs_eqb op "join_spec" then run_join_spec arg
+  else if zs_eqb op "crossjoin" then run_crossjoin arg
+  else if zs_eqb op "crossjoin_spec" then run_crossjoin_spec arg
+  else if zs_eqb op "hashjoin" then run_hashjoin arg
+  else if zs_eqb op "hash_spec" then run_hash_spec arg
+  else if zs_eqb op "same_table" then run_same_table arg
+  else if zs_eqb op "lookup" then run_lookup arg
   else vtuple [vstr "!unknown-op"].
